@@ -62,7 +62,7 @@ META = {
         "(R5) Writers of the open-element stack have a role derived from the callback map; the opening function, run symbolically "
         "with Tree helpers inlined, ends as [.., top] -> [.., top, new] with new appended to top; childless-node functions leave "
         "the stack unchanged; the closing function is run as a decision table over abstract stacks [Root, e1..] of depth 1-4 x every "
-        "name-match pattern and must pop exactly down to the innermost match, nothing otherwise; a per-name counter consulted by "
+        "name-match pattern (loops, enumerate, comprehensions / next() / min() searches, flags, early return are modelled) and must pop exactly down to the innermost match, nothing otherwise; a per-name counter consulted by "
         "the closing function must be +1 at the push and -1 for every popped element (inductive invariant counter[n] == open n). "
         "(R6) No exception escapes tokenize_html, any overridden callback or Element.insert/__setitem__ (escape analysis; the "
         "HTMLParser.feed entry is discharged by the parse_marked_section override catching AssertionError). "
@@ -1988,22 +1988,35 @@ class _EncloseRun:
                 if -len(seq) <= i < len(seq):
                     return seq[i]
                 raise _Stops("IndexError: the open-element stack is indexed out of range")
+        if isinstance(e, (ast.GeneratorExp, ast.ListComp)):
+            return self.comprehension(e, 0)
+        if isinstance(e, ast.Tuple):
+            return tuple(self.ev(x) for x in e.elts)
         if isinstance(e, ast.Call):
             d = dotted(e.func)
             if isinstance(e.func, ast.Attribute) and P.is_stack(e.func.value) and e.func.attr == "pop" and not e.args:
                 return self.pop()
-            if d in ("any", "all") and len(e.args) == 1 and isinstance(e.args[0], (ast.GeneratorExp, ast.ListComp)) and len(e.args[0].generators) == 1:
-                gen = e.args[0].generators[0]
-                seq = self.ev(gen.iter)
-                if isinstance(seq, list):
-                    res = []
-                    for item in seq:
-                        self.bind(gen.target, item)
-                        if all(self.truth(self.ev(c)) for c in gen.ifs):
-                            res.append(self.truth(self.ev(e.args[0].elt)))
-                    return any(res) if d == "any" else all(res)
             args = [self.ev(a_) for a_ in e.args]
             kw = {k.arg: self.ev(k.value) for k in e.keywords}
+            if d in ("any", "all") and len(args) == 1 and isinstance(args[0], list):
+                res = [self.truth(x) for x in args[0]]
+                return any(res) if d == "any" else all(res)
+            if d == "next" and 1 <= len(args) <= 2 and isinstance(args[0], list) and not kw:
+                if args[0]:
+                    return args[0][0]
+                if len(args) == 2:
+                    return args[1]
+                raise _Stops("StopIteration: next() of an exhausted search without a default")
+            if d == "sum" and len(args) == 1 and isinstance(args[0], list) and all(isinstance(x, int) for x in args[0]):
+                return sum(args[0])
+            if d in ("min", "max") and len(args) == 1 and isinstance(args[0], list) and all(isinstance(x, int) for x in args[0]):
+                if args[0]:
+                    return (min if d == "min" else max)(args[0])
+                if "default" in kw:
+                    return kw["default"]
+                raise _Stops(f"ValueError: {d}() of an empty sequence")
+            if d in ("iter", "tuple") and len(args) == 1 and isinstance(args[0], list):
+                return list(args[0])
             if d == "len" and len(args) == 1 and isinstance(args[0], list):
                 return len(args[0])
             if d == "reversed" and len(args) == 1 and isinstance(args[0], list):
@@ -2017,6 +2030,26 @@ class _EncloseRun:
             if d == "range" and args and all(isinstance(x, int) for x in args) and not kw:
                 return list(range(*args))
         raise Unsupported(f"{self.fi.fq}: expression `{short(e, 50)}`")
+
+    def comprehension(self, e, k: int) -> list:
+        """Eager value of a generator expression / list comprehension (the searches here consume it at once)."""
+        if k == len(e.generators):
+            return [self.ev(e.elt)]
+        gen = e.generators[k]
+        seq = self.ev(gen.iter)
+        if not isinstance(seq, list):
+            raise Unsupported(f"{self.fi.fq}: comprehension over `{short(gen.iter, 40)}`")
+        over_stack = any(self.P.is_stack(x) for x in ast.walk(gen.iter))
+        self.iterating += over_stack
+        out = []
+        try:
+            for item in list(seq):
+                self.bind(gen.target, item)
+                if all(self.truth(self.ev(c)) for c in gen.ifs):
+                    out += self.comprehension(e, k + 1)
+        finally:
+            self.iterating -= over_stack
+        return out
 
     @staticmethod
     def truth(v) -> bool:
